@@ -85,10 +85,14 @@ pub(crate) fn spec_smooth_tendency(a: i64, b: i64, c: i64) -> i64 {
 // with an arbitrary function, i.e. fails.
 // ------------------------------------------------------------------------------------------------
 const MEMO: usize = 16;
-static mut MEMO_KEY: [(i64, i64, i64); MEMO] = [(0, 0, 0); MEMO];
-static mut MEMO_VAL: [i64; MEMO] = [0; MEMO];
-static mut MEMO_LEN: usize = 0;
-static mut ABSTRACT: bool = false;
+// unique non-zero initial values (entries below MEMO_LEN are always written before they are read): Kani 0.68 may give a
+// `static mut` the storage of an equal-bytes constant elsewhere in the program
+const MEMO_LEN_BASE: usize = 0x4d45_4d4f_4c45_0000;
+const ABSTRACT_OFF: u64 = 0x4142_5354_5241_4300;
+static mut MEMO_KEY: [(i64, i64, i64); MEMO] = [(0x4d4b_0001, 0x4d4b_0002, 0x4d4b_0003); MEMO];
+static mut MEMO_VAL: [i64; MEMO] = [0x4d56_0001; MEMO];
+static mut MEMO_LEN: usize = MEMO_LEN_BASE;
+static mut ABSTRACT: u64 = ABSTRACT_OFF;
 
 /// dividend of smooth_tendency (0 when not monotone)
 pub(crate) fn spec_tendency_dividend(a: i64, b: i64, c: i64) -> i64 {
@@ -108,13 +112,13 @@ fn abstract_tendency(a: i64, b: i64, c: i64) -> i64 {
         let v: i64 = kani::any();
         kani::assume(v > -(1i64 << 40) && v < (1i64 << 40)); // no arithmetic below can overflow i64
         let mut i = 0;
-        while i < MEMO_LEN {
+        while i < MEMO_LEN - MEMO_LEN_BASE {
             kani::assume(!(MEMO_KEY[i].0 == a && MEMO_KEY[i].1 == b && MEMO_KEY[i].2 == c) || MEMO_VAL[i] == v);
             i += 1;
         }
-        assert!(MEMO_LEN < MEMO, "memo table of the abstract function is large enough");
-        MEMO_KEY[MEMO_LEN] = (a, b, c);
-        MEMO_VAL[MEMO_LEN] = v;
+        assert!(MEMO_LEN - MEMO_LEN_BASE < MEMO, "memo table of the abstract function is large enough");
+        MEMO_KEY[MEMO_LEN - MEMO_LEN_BASE] = (a, b, c);
+        MEMO_VAL[MEMO_LEN - MEMO_LEN_BASE] = v;
         MEMO_LEN += 1;
         v
     }
@@ -133,7 +137,7 @@ fn stub_tendency_i16(a: i16, b: i16, c: i16) -> i16 {
 
 /// (T, N) used by the spec line functions: the real smooth_tendency, or the abstract function in line harnesses.
 fn tend(a: i64, b: i64, c: i64) -> (i64, i64) {
-    if unsafe { ABSTRACT } {
+    if unsafe { ABSTRACT } != ABSTRACT_OFF {
         (abstract_tendency(a, b, c), spec_tendency_dividend(a, b, c))
     } else {
         spec_smooth_tendency_n(a, b, c)
@@ -494,7 +498,7 @@ macro_rules! sq_harness {
         #[kani::stub(tendency_i32, stub_tendency_i32)]
         #[kani::stub(tendency_i16, stub_tendency_i16)]
         fn $name() {
-            unsafe { ABSTRACT = true };
+            unsafe { ABSTRACT = ABSTRACT_OFF + 1 };
             $f::<$w, $h, { ($w + 1) * $h }>();
         }
     };
